@@ -672,18 +672,17 @@ class Runner(object):
                 self.data_idx = 0
                 self.data_unsure = False
             elif k == 'read':
-                ref.touch(op[1], created)
-                if op[1][0] == 's':
-                    demand.append(scalar_size(op[1][1]))
+                # interpreter.read_: Out of DATA is raised before the variable is looked up (nothing is
+                # created then); the value is a pointer into the DATA line (no string space is used); the
+                # DATA pointer advances only when the assignment (implicit DIM, subscript check) succeeded
                 if self.data_idx >= len(DATA_ITEMS):
                     raise Deterministic(4)
                 item = DATA_ITEMS[self.data_idx]
-                demand.append(len(item))
-                demand.append(len(item))
+                ref.touch(op[1], created)
+                if op[1][0] == 's':
+                    demand.append(scalar_size(op[1][1]))
                 if err is None:
                     self.data_idx += 1
-                elif err in (7, 14):
-                    self.data_unsure = True     # the DATA pointer may or may not have advanced
                 ref.write(op[1], item)
             elif k in ('frs', 'fr0'):
                 pass
@@ -973,6 +972,31 @@ def extended_session(ctx, n_hist, hist_len, label):
         r.close()
 
 
+READ_REGRESSION = (
+    [('rerun',)] + [('read', ('s', b'A$'))] * 3 + [('read', ('e', b'R$', 20)), ('read', ('e', b'R$', 2)),
+                                                  ('read', ('e', b'S$', 11)), ('read', ('e', b'S$', 10))]
+    + [('read', ('s', b'B$'))] * 7 + [('erase', b'R$'), ('read', ('e', b'R$', 2)), ('dim', b'R$', 3),
+                                     ('read', ('e', b'S$', 30)), ('read', ('s', b'C$')), ('restore',),
+                                     ('read', ('e', b'R$', 3)), ('read', ('e', b'R$', 4)), ('frs',),
+                                     ('mid', ('e', b'R$', 3), 2, None, ('lit', b'XY')),
+                                     ('lset', ('e', b'R$', 3), False, ('lit', b'Q')), ('frs',)])
+
+
+def read_regression(ctx):
+    """READ: Out of DATA before the variable is created, subscript errors do not consume an item, the values are
+    pointers into the DATA line (copied on MID$/LSET)"""
+    program = list(PROGRAM) + [b'%d %s="%s":END' % (n, v, lit) for n, v, lit in CODE_LINES]
+    r = Runner(ctx, program)
+    r.code_lits = {n: (v, lit) for n, v, lit in CODE_LINES}
+    try:
+        for op in READ_REGRESSION:
+            if r.failed:
+                break
+            r.step(op, 'extended')
+    finally:
+        r.close()
+
+
 def run(ctx):
     quick = ctx.quick
     n_sessions = 5 if quick else 10
@@ -989,6 +1013,7 @@ def run(ctx):
         if i == 0:
             ctx.sample({'extended_history_head': r.history[:12]})
         ctx.log('extended session %d: %d statements' % (i, len(r.history)))
+    read_regression(ctx)
     directed(ctx)
 
 
